@@ -162,6 +162,9 @@ def run_check(pid, tier, seed, replay=None):
         timeout = int(tcfg.get("timeout", 600 if tier == "quick" else 3600))
         fragdir = os.path.join(work, "frags")
         os.makedirs(fragdir)
+        if not replay:
+            for old in glob.glob(os.path.join(HERE, "replays", pid, tier + "-*")):
+                os.remove(old)
         procs = []
         for k in range(shards):
             sd = os.path.join(work, "s%d" % k)
@@ -241,7 +244,7 @@ def run_check(pid, tier, seed, replay=None):
             # show the head of the first failure for the reader
             try:
                 log = open(os.path.splitext(viols[0])[0] + ".log").read()
-                print(log[-3000:])
+                print("\n".join(l[:300] for l in log.splitlines()[:25]))
             except Exception:
                 pass
             rc = 1
